@@ -68,14 +68,14 @@ CLAIMED["C05"] = dict(
     text="Proof (Lean 4) about the handle state machine SfModel.Handle (the 16 read/write wrappers, guards in order, end-of-data clamp, zero fill, position "
          "bookkeeping) tied to the code two ways: (A) byte-exact transcript correspondence of seeded random histories on every RAW/AU/WAV encoding; (B) the "
          "count/bounds/position contract re-evaluated on the implementation's own transcripts for every writable (major, subtype, endian) incl. all block codecs, "
-         "against one sequential reference read, with exact-size ASan-guarded buffers. Partial: opaque codecs are covered by (B) only. The predicate that decides VIOLATION on an implementation transcript is the Lean definition Sf.Abs.holdsOn (lean/SfModel/Abs.lean: L0 abstract handle model of any container, reference stream as a parameter) evaluated by the driver `sfmodel abs`; SfProps/C05Abs.lean proves what an accepted transcript means and that contract-satisfying answers are accepted; the former Python predicate runs beside it as a cross-check (evidence: abs_predicate).",
+         "against one sequential reference read, with exact-size ASan-guarded buffers. Partial: opaque codecs are covered by (B) only. The predicate that decides VIOLATION on an implementation transcript is the Lean definition Sf.Abs.holdsOn (lean/SfModel/Abs.lean: L0 abstract handle model of any container, reference stream as a parameter) evaluated by the driver `sfmodel abs`; SfProps/C05Abs.lean proves what an accepted transcript means and that contract-satisfying answers are accepted; the former Python predicate runs beside it as a cross-check (evidence: abs_predicate). The predicate is SOUND against the concrete handle model by a machine-checked bridge (SfProps/C05Bridge.lean `handle_run_accepted`: the transcript of every operation list of Sf.Handle from every invariant state, RAW/AU/WAV, every sample-granular codec, is accepted by holdsOn with ref := the decoded data region; induction over runOps).",
     technique="Lean 4 theorems over a hand-written handle model + differential correspondence + contract evaluation on implementation transcripts",
     design_ref="DESIGN.md §7 C05")
 CLAIMED["C06"] = dict(
     text="Proof (Lean 4) about sf_seek's whence arithmetic and the read path of SfModel.Handle (seek result is the requested frame or -1 with error; reads depend on "
          "position only); correspondence (A) byte-exact on RAW/AU/WAV histories, (B) on every writable format incl. IMA/MS ADPCM, GSM, PAF24, SDS, ALAC, DWVW: "
          "seeded seek/read histories must deliver slices of the one-pass reference stream and position probes must agree. Handles reporting SF_INFO.seekable = 0 "
-         "are required to refuse every seek. Partial: block-codec seek internals are opaque (checked by B). The predicate that decides VIOLATION on an implementation transcript is the Lean definition Sf.Abs.holdsOn (lean/SfModel/Abs.lean: L0 abstract handle model of any container, reference stream as a parameter) evaluated by the driver `sfmodel abs`; SfProps/C06Abs.lean proves what an accepted transcript means and that contract-satisfying answers are accepted; the former Python predicate runs beside it as a cross-check (evidence: abs_predicate).",
+         "are required to refuse every seek. Partial: block-codec seek internals are opaque (checked by B). The predicate that decides VIOLATION on an implementation transcript is the Lean definition Sf.Abs.holdsOn (lean/SfModel/Abs.lean: L0 abstract handle model of any container, reference stream as a parameter) evaluated by the driver `sfmodel abs`; SfProps/C06Abs.lean proves what an accepted transcript means and that contract-satisfying answers are accepted; the former Python predicate runs beside it as a cross-check (evidence: abs_predicate). The predicate is SOUND against the concrete handle model by a machine-checked bridge (SfProps/C05Bridge.lean `handle_run_accepted`: the transcript of every operation list of Sf.Handle from every invariant state, RAW/AU/WAV, every sample-granular codec, is accepted by holdsOn with ref := the decoded data region; induction over runOps).",
     technique="Lean 4 theorems over a hand-written handle model + differential correspondence + contract evaluation on implementation transcripts",
     design_ref="DESIGN.md §7 C06")
 
@@ -139,7 +139,7 @@ CLAIMED["C08"] = dict(
          "seeded rw histories (all 12 whence cases, truncate on descriptor routes, header updates, close/re-open, from empty and pre-populated files) on every RAW/AU/WAV "
          "encoding, and (B) for every sample-granular container that opens SFM_RDWR, histories checked op by op against the abstract file of the statement "
          "(frame list + read position + write position) with a lossless caller type. Partial: the refinement theorem tying the byte model to the abstract file is stated "
-         "through C01/C05 lemmas, not as one theorem. The predicate that decides VIOLATION on an implementation transcript is the Lean definition Sf.Abs.holdsOn (lean/SfModel/Abs.lean: L0 abstract handle model of any container, reference stream as a parameter) evaluated by the driver `sfmodel abs`; SfProps/C08Abs.lean proves what an accepted transcript means and that contract-satisfying answers are accepted; the former Python predicate runs beside it as a cross-check (evidence: abs_predicate).",
+         "through C01/C05 lemmas, not as one theorem. The predicate that decides VIOLATION on an implementation transcript is the Lean definition Sf.Abs.holdsOn (lean/SfModel/Abs.lean: L0 abstract handle model of any container, reference stream as a parameter) evaluated by the driver `sfmodel abs`; SfProps/C08Abs.lean proves what an accepted transcript means and that contract-satisfying answers are accepted; the former Python predicate runs beside it as a cross-check (evidence: abs_predicate). The predicate is SOUND against the concrete handle model by a machine-checked bridge (SfProps/C05Bridge.lean `handle_run_accepted`: the transcript of every operation list of Sf.Handle from every invariant state, RAW/AU/WAV, every sample-granular codec, is accepted by holdsOn with ref := the decoded data region; induction over runOps). SfProps/C08Bridge.lean `accepted_rdwr_refines`: every RDWR transcript the predicate accepts refines the abstract file AbsFile of the statement (item view), and `rdwr_handle_run_accepted` is the bridge for read/write handles.",
     technique="Lean 4 theorems over a hand-written handle model + differential correspondence + abstract-file simulation on implementation transcripts",
     design_ref="DESIGN.md §7 C08")
 CLAIMED["C09"] = dict(
